@@ -107,6 +107,10 @@ def cases(draw, max_n):
         "search_outer": draw(st.booleans()),
         "cap": draw(st.sampled_from(["2", "small", "opt", "huge"])),
         "via": draw(st.sampled_from(["function", "class_call", "class_ssa"])),
+        # sizes as python ints or numpy integers; 'shift' makes the counts
+        # astronomically large (beyond 64 bits) - the optimum must still be found
+        "size_type": draw(st.sampled_from(["int", "int", "numpy"])),
+        "shift": draw(st.sampled_from([0, 0, 0, 20])),
     }
 
 
@@ -140,7 +144,7 @@ class Scorer:
 
     def score(self, steps, minimize):
         which, _, k = minimize.partition("-")
-        k = float(k) if k else 64
+        k = int(k) if k else 64
         tot = 0
         has_outer = False
         for P, L, R in steps:
@@ -170,9 +174,16 @@ def run_case(spec, sub=None):
     inputs = [tuple(t) for t in net["inputs"]]
     output = tuple(net["output"])
     sizes = dict(net["sizes"])
+    if spec.get("shift"):
+        sizes = {ix: d << spec["shift"] for ix, d in sizes.items()}
     n = len(inputs)
     minimize = spec["minimize"]
-    sc = Scorer(inputs, output, sizes)
+    sc = Scorer(inputs, output, sizes)  # (python integers: exact)
+    given = sizes
+    if spec.get("size_type") == "numpy":
+        import numpy as _np
+
+        given = {ix: _np.int64(d) for ix, d in sizes.items()}
 
     best_all = best_no = None
     first = None
@@ -195,13 +206,13 @@ def run_case(spec, sub=None):
     cap = {"2": 2, "small": 10, "opt": want, "huge": 10**30}[spec["cap"]]
     kw = dict(minimize=minimize, cost_cap=cap, search_outer=spec["search_outer"])
     if spec["via"] == "function":
-        ok, path = guarded(pb.optimize_optimal, inputs, output, sizes, use_ssa=True, **kw)
+        ok, path = guarded(pb.optimize_optimal, inputs, output, given, use_ssa=True, **kw)
         is_ssa = True
     elif spec["via"] == "class_ssa":
-        ok, path = guarded(lambda: pb.OptimalOptimizer(**kw).ssa_path(inputs, output, sizes))
+        ok, path = guarded(lambda: pb.OptimalOptimizer(**kw).ssa_path(inputs, output, given))
         is_ssa = True
     else:
-        ok, path = guarded(lambda: pb.OptimalOptimizer(**kw)(inputs, output, sizes))
+        ok, path = guarded(lambda: pb.OptimalOptimizer(**kw)(inputs, output, given))
         is_ssa = False
     viol = []
     if not ok:
@@ -232,6 +243,10 @@ def run_case(spec, sub=None):
     cls = [f"n={n}", f"minimize={minimize.split('-')[0]}", f"search_outer={spec['search_outer']}", f"cap={spec['cap']}"]
     if best_all != best_no:
         cls.append("outer_product_helps")
+    if spec.get("shift"):
+        cls.append(f"counts_beyond_64_bits:{spec.get('size_type', 'int')}")
+    elif spec.get("size_type") == "numpy":
+        cls.append("numpy_sizes")
     if any(ix for ix in sizes if sum(ix in t for t in inputs) >= 3):
         cls.append("hyper")
     return Outcome(viol, nontrivial, cls, {"trees_enumerated": math.prod(range(1, 2 * n - 2, 2))})
